@@ -106,6 +106,28 @@ def w_program(case):
                     % (what, lab), 'expected': exp, 'observed': y,
                     'behaviour': 'copy_trajectory'})
                 break
+    # a reduced model and its copy with different fixed parameters do not share
+    # their values: fix A, copy, swap the fixed parameter in the copy, simulate the
+    # copy, then the original still solves ITS problem
+    if len(names) >= 3:
+        pv_r = case['points'][0]
+        times_r = case['grids'][-1]
+        rm_o = chi.ReducedMechanisticModel(m)
+        rm_o.fix_parameters({names[0]: pv_r[0]})
+        rm_c = rm_o.copy()
+        rm_c.fix_parameters({names[0]: None, names[1]: pv_r[1] * 4.0})
+        rm_c.simulate([3.0 + k_ for k_ in range(len(names) - 1)], list(times_r))
+        y = np.asarray(rm_o.simulate(list(pv_r[1:]), list(times_r)), dtype=float)
+        ref = rc.solve(desc, dict(zip(names, pv_r)), times_r)
+        exp = np.real(np.array([ref[o] for o in sel_last]))
+        ntr += 4
+        if y.shape != exp.shape or not tol.allclose(y, exp, tol.ODE_REL,
+                                                    tol.ODE_ABS):
+            viol.append({'sub': 'copy_shares', 'message': 'a reduced model returns '
+                         'another solution after its copy was given other fixed '
+                         'parameters and simulated (%s)' % lab, 'expected': exp,
+                         'observed': y, 'behaviour': 'copy_trajectory'})
+        rm_o.fix_parameters({names[0]: None})
     # sensitivities, all parameters, then fixed subsets via ReducedMechanisticModel
     pv = case['points'][0]
     times = case['grids'][1]
@@ -135,6 +157,8 @@ def w_program(case):
         if fixed:
             rm = chi.ReducedMechanisticModel(m)
             m.set_outputs(list(sel))
+            # (fixed at other values first: the values in force are the last ones)
+            rm.fix_parameters({names[i]: 1.7 * pv[i] + 0.1 for i in fixed})
             rm.fix_parameters({names[i]: pv[i] for i in fixed})
             rm.enable_sensitivities(True)
             model = rm
@@ -207,6 +231,40 @@ def w_program(case):
                          'observed': list(m.outputs()),
                          'behaviour': 'outputs_alias'})
         m.enable_sensitivities(False)
+    if len(sel) > 1:
+        # the same outputs selected again in another order while sensitivities are
+        # on: rows of the outputs and of the sensitivities follow the new order
+        m.set_outputs(list(sel))
+        m.enable_sensitivities(True)
+        rev = list(sel)[::-1]
+        m.set_outputs(rev)
+        res = m.simulate(list(pv), list(times))
+        ntr += 3
+        x_all = np.array(pv, dtype=float)
+        ey = np.real(closed(x_all, list(range(len(names)))))[::-1]
+        if isinstance(res, tuple):
+            y_r, S_r = np.asarray(res[0], dtype=float), np.asarray(res[1],
+                                                                    dtype=float)
+            eS = np.empty((len(times), len(sel), len(names)))
+            for k in range(len(names)):
+                z = x_all.astype(complex)
+                z[k] += 1j * 1e-30
+                eS[:, :, k] = (np.imag(closed(z, list(range(len(names)))))
+                               / 1e-30).T[:, ::-1]
+            ok = tol.allclose(y_r, ey, tol.ODE_REL, tol.ODE_ABS) and \
+                S_r.shape == eS.shape and tol.allclose(S_r, eS, 1e-5, 1e-7)
+        else:
+            ok = tol.allclose(np.asarray(res, dtype=float), ey, tol.ODE_REL,
+                              tol.ODE_ABS)
+        if not ok or list(m.outputs()) != rev:
+            viol.append({'sub': 'outputs_reordered', 'message': 'after selecting the '
+                         'same outputs in another order with sensitivities on, the '
+                         'rows of outputs / sensitivities do not follow the '
+                         'published output order (%s)' % lab, 'expected': rev,
+                         'observed': list(m.outputs()),
+                         'behaviour': 'outputs_reordered'})
+        m.enable_sensitivities(False)
+        m.set_outputs(list(sel))
     fx = [len(names) - 1]
     rm2 = chi.ReducedMechanisticModel(m)
     rm2.fix_parameters({names[i]: pv[i] for i in fx})
@@ -317,6 +375,49 @@ def w_program(case):
             fixed = [0]
             free_idx = [i for i in range(len(names)) if i not in fixed]
             x = np.array([pv[i] for i in free_idx], dtype=float)
+            if variant == 'plain_indirect':
+                # indirect route on a fresh model: a depot (called 'dose', or
+                # 'dose_1' when the model has a compartment of that name) feeds the
+                # dosed compartment at its absorption rate
+                tmp = tempfile.mkdtemp(prefix='vc09_')
+                try:
+                    mi = chi.PKPDModel(sbmlgen.write(desc, tmp))
+                finally:
+                    shutil.rmtree(tmp, ignore_errors=True)
+                mi.set_administration(comp, amount_var='drug_%s_amount' % comp,
+                                      direct=False)
+                mi.set_outputs(list(sel))
+                duration = 0.4
+                mi.set_dosing_regimen(dose, start=start, duration=duration)
+                depot = 'dose_1' if any(c_['id'] == 'dose'
+                                        for c_ in desc['comps']) else 'dose'
+                vi = dict(zip(orig, pv))
+                vi[depot + '.drug_amount'] = 0.37
+                vi[depot + '.absorption_rate'] = 1.3
+                names_i = list(mi.parameters())
+                ntr += 3
+                if sorted(names_i) != sorted(vi):
+                    viol.append({'sub': 'indirect_names', 'message': 'parameters of '
+                                 'the indirectly dosed model are not the model\'s '
+                                 'own plus the depot\'s amount and absorption rate '
+                                 '(%s)' % lab, 'expected': sorted(vi),
+                                 'observed': sorted(names_i),
+                                 'behaviour': 'indirect_names'})
+                    continue
+                y = np.asarray(mi.simulate([vi[n_] for n_ in names_i], list(times)),
+                               dtype=float)
+                r_ = rc.solve(desc, vi, times, dosed=comp,
+                              events=[(start, duration, dose / duration)],
+                              depot=True, depot_name=depot)
+                ey = np.real(np.array([r_[o] for o in sel]))
+                if y.shape != ey.shape or not tol.allclose(
+                        y, ey, tol.ODE_REL, tol.ODE_ABS):
+                    viol.append({'sub': 'dosed_values', 'message': 'simulation of '
+                                 'the indirectly dosed model is not the solution of '
+                                 'the documented initial-value problem with a depot '
+                                 '(%s)' % lab, 'expected': ey, 'observed': y,
+                                 'behaviour': 'dosed_values'})
+                continue
             if variant in ('plain_numbers', 'plain_protocol'):
                 import myokit
                 duration = 0.4
@@ -531,9 +632,9 @@ WORKERS = {'generated': w_program, 'library': w_library}
 def build(tier, seed):
     # (quick: the 3-compartment model comes with identity / reversed / rotated
     # declaration orders -- the rotation is a 3-cycle w.r.t. alphabetical order)
-    topologies = ['one', 'chain2', 'chain2mixed', 'mam2', 'mam3'] \
+    topologies = ['one', 'chain2', 'chain2mixed', 'chain2dose', 'mam2', 'mam3'] \
         if tier == 'quick' else \
-        ['one', 'chain2', 'chain2mixed', 'mam2', 'chain3', 'mam3']
+        ['one', 'chain2', 'chain2mixed', 'chain2dose', 'mam2', 'chain3', 'mam3']
     descs = sbmlgen.all_descriptors(topologies, full_perms=(tier == 'thorough'))
     cases = []
     for di, desc in enumerate(descs):
@@ -559,7 +660,8 @@ def build(tier, seed):
                       'rename': [[], [1], list(range(n)), [0, n - 1]][di % 4],
                       'dosed': sorted(c['id'] for c in desc['comps'])[
                           di % len(desc['comps'])],
-                      'dose_variants': ['plain_numbers', 'plain_protocol',
+                      'dose_variants': ['plain_indirect', 'plain_numbers',
+                                        'plain_protocol',
                                         'sens_twice', 'fix_after_sens', 'subset',
                                         'toggle', 'wrapper_default']})
     lib = []
